@@ -482,6 +482,15 @@ func (g *gen) genParams(n int, used map[string]bool, prefix string, out bool) []
 	ps := make([]Param, 0, n)
 	for i := 0; i < n; i++ {
 		p := Param{Name: g.id(prefix, used), Type: g.genType(g.r.Intn(g.cfg.MaxTypeDepth + 1))}
+		if i > 0 && g.pct(25) {
+			// a name extending a sibling's name (prefix-related identifiers)
+			n2 := ps[i-1].Name + []string{"_alt", "2", "_x"}[g.r.Intn(3)]
+			if !used[n2] {
+				delete(used, p.Name)
+				used[n2] = true
+				p.Name = n2
+			}
+		}
 		if prefix == "in" && len(g.outTypes) > 0 && g.pct(g.cfg.PFlowTypes) {
 			// consume what some stage produces: the type itself or the
 			// element type of a collection it produces
